@@ -175,6 +175,16 @@ def run_impl(c):
         pts.append((q, p, outside, col(q2), col(p2)))
         # statement: +inf outside, unbounded misfit inside
         box_lo, box_hi = out["collapsed"] if c["mode"] != "plain" else out["after"]
+        # statement: each violating coordinate mirrored about its bound, exactly the matching momenta negated, the rest untouched
+        rq, rp = list(q), list(p)
+        for i in range(dd):
+            if box_lo is not None and rq[i] < box_lo[i]:
+                rq[i], rp[i] = 2.0 * box_lo[i] - rq[i], -rp[i]
+            if box_hi is not None and rq[i] > box_hi[i]:
+                rq[i], rp[i] = 2.0 * box_hi[i] - rq[i], -rp[i]
+        if not (all(common.same_float(a, b) for a, b in zip(rq, col(q2))) and all(common.same_float(a, b) for a, b in zip(rp, col(p2)))):
+            out["problems"].append(("corrector-not-mirror", f"{c['mode']}: corrector with bounds {(box_lo, box_hi)} maps q={q}, p={p} to q={col(q2)}, p={col(p2)}; "
+                                    f"mirroring the violating coordinates gives q={rq}, p={rp}"))
         viol = any((box_lo is not None and q[i] < box_lo[i]) or (box_hi is not None and q[i] > box_hi[i]) for i in range(dd))
         if viol and not outside:
             out["problems"].append(("misfit-not-inf-outside", f"{c['mode']}: misfit at {q} outside bounds {(box_lo, box_hi)} is {mis}"))
